@@ -783,7 +783,7 @@ func TestC16_Partitions(t *testing.T) {
 		"SyncStartBlockNumber 0; no fault injection (C15 covers failures)",
 		"the decrypted flag is not exercised (it is written by the key release path, not by the syncer)",
 	)
-	runRapid(t, N(700, 24000), func(rt *rapid.T) { runC16Case(rt, c16Partitions()) })
+	runRapid(t, N(700, 40000), func(rt *rapid.T) { runC16Case(rt, c16Partitions()) })
 }
 
 // TestC16_WitnessF9 replays the minimal case of the open finding F9: a trigger
